@@ -1085,7 +1085,7 @@ class Application():
         if req.document_root and \
                 req.method_number & (METHOD_HEAD | METHOD_GET):
             rfile = "%s%s" % (req.document_root,
-                              path.normpath("%s" % req.path))
+                              path.normpath("/%s" % req.path.lstrip("/")))
 
             if not path.exists(rfile):
                 if req.debug and req.path == '/debug-info':  # work if debug
